@@ -99,6 +99,18 @@ func mkAddr(class int, length int, last byte, rng *vk.Rand) []byte {
 	return a
 }
 
+func bytesEqual(a, b []byte) bool {
+	if len(a) != len(b) {
+		return false
+	}
+	for i := range a {
+		if a[i] != b[i] {
+			return false
+		}
+	}
+	return true
+}
+
 func minInt(a, b int) int {
 	if a < b {
 		return a
@@ -161,6 +173,19 @@ func main() {
 							}
 						}
 						prevAddr, prevID = a, got
+						// pairs that share the trailing byte but come from different address classes (e.g. a
+						// metachain system-SC shaped address and a user address both ending in 0xff)
+						for oc := 0; oc < 5; oc++ {
+							if oc == class {
+								continue
+							}
+							b := mkAddr(oc, L, byte(last), c.Rng)
+							idB := coords[0].ComputeId(b)
+							r.Eval(1)
+							if same := coords[0].SameShard(a, b); same != (idB == got) && !bytesEqual(a, b) {
+								r.Violation(c.Idx, "sameshard", fmt.Sprintf("n=%d SameShard(%x,%x)=%v ids %d,%d (same trailing byte, classes %d/%d)", n, a, b, same, got, idB, class, oc), map[string]interface{}{"shards": n, "a": vk.Hex(a), "b": vk.Hex(b), "idA": got, "idB": idB})
+							}
+						}
 						if n == 3 && last == 255 && L == 32 && rep == 0 {
 							r.Sample(map[string]interface{}{"shards": n, "class": class, "addr": vk.Hex(a), "shard": got})
 						}
